@@ -10,9 +10,10 @@ set_option linter.unnecessarySimpa false
 namespace MuduoVerif.Loop
 open MuduoVerif.Gen.Loop
 
-/-- calls that only hand work to the loop -/
+/-- calls that only hand work to the loop (`bury`, the death of an inline call's functor object, is put there by the
+model itself: its destructor body is user code of the same kind, `BodiesInv.dtbl`) -/
 def userSub : Sub → Bool
-  | .queue _ | .run _ | .post _ => true
+  | .queue _ | .run _ | .post _ | .bury _ => true
   | _ => false
 
 def userOnly (l : List Sub) : Bool := l.all userSub
@@ -20,67 +21,83 @@ def userOnly (l : List Sub) : Bool := l.all userSub
 theorem userOnly_cons {x : Sub} {l : List Sub} : userOnly (x :: l) = true ↔ userSub x = true ∧ userOnly l = true := by
   simp [userOnly]
 
-/-- no task body (and nothing the loop thread is executing) calls `quit()`, `startLoop()` or the destructor -/
+/-- no task body, no destructor of a functor's captured state (and nothing the loop thread is executing) calls
+`quit()`, `startLoop()` or the destructor -/
 structure BodiesInv (s : St) : Prop where
   tbl : ∀ x, userOnly (s.tbl x) = true
+  dtbl : ∀ x, userOnly (s.dtbl x) = true
   stack : ∀ b, b ∈ s.stack → userOnly b = true
   lpc : s.lpc ≠ .quitStored
   selfq : s.selfQuit = false
 
 theorem runTop_bodies {s : St} (h : BodiesInv s) : BodiesInv (runTop s) ∧ (runTop s).qreq = s.qreq := by
-  obtain ⟨h1, h2, h3, h4⟩ := h
+  obtain ⟨h1, hd, h2, h3, h4⟩ := h
   unfold runTop
   split
-  · split <;> exact ⟨⟨h1, h2, by simp, h4⟩, rfl⟩
+  · split <;> exact ⟨⟨h1, hd, h2, by simp, h4⟩, rfl⟩
   · rename_i hq; exact absurd hq h3
   · split
-    · exact ⟨⟨h1, h2, h3, h4⟩, rfl⟩
+    · exact ⟨⟨h1, hd, h2, h3, h4⟩, rfl⟩
     · rename_i rest hs
-      refine ⟨⟨h1, ?_, h3, h4⟩, rfl⟩
+      refine ⟨⟨h1, hd, ?_, h3, h4⟩, rfl⟩
       intro b hb; exact h2 b (by rw [hs]; exact List.mem_cons_of_mem _ hb)
     all_goals (rename_i hs; have hb := h2 _ (by rw [hs]; exact List.mem_cons_self))
     all_goals (have hr := (userOnly_cons.mp hb).2)
     all_goals (have hx := (userOnly_cons.mp hb).1)
     all_goals (try (simp [userSub] at hx; done))
-    · refine ⟨⟨h1, ?_, by simp, h4⟩, rfl⟩
+    · refine ⟨⟨h1, hd, ?_, by simp, h4⟩, rfl⟩
       intro b hb'
       rcases List.mem_cons.mp hb' with rfl | hb'
       · exact hr
       · exact h2 b (by rw [hs]; exact List.mem_cons_of_mem _ hb')
     · split
-      · refine ⟨⟨h1, ?_, h3, h4⟩, rfl⟩
+      · refine ⟨⟨h1, hd, ?_, h3, h4⟩, rfl⟩
         intro b hb'
         rcases List.mem_cons.mp hb' with rfl | hb'
         · exact h1 _
         rcases List.mem_cons.mp hb' with rfl | hb'
-        · exact hr
+        · exact userOnly_cons.mpr ⟨rfl, hr⟩
         · exact h2 b (by rw [hs]; exact List.mem_cons_of_mem _ hb')
-      · refine ⟨⟨h1, ?_, by simp, h4⟩, rfl⟩
+      · refine ⟨⟨h1, hd, ?_, by simp, h4⟩, rfl⟩
         intro b hb'
         rcases List.mem_cons.mp hb' with rfl | hb'
         · exact hr
         · exact h2 b (by rw [hs]; exact List.mem_cons_of_mem _ hb')
-    · refine ⟨⟨h1, ?_, h3, h4⟩, rfl⟩
+    · refine ⟨⟨h1, hd, ?_, h3, h4⟩, rfl⟩
       intro b hb'
       rcases List.mem_cons.mp hb' with rfl | hb'
       · exact hr
       · exact h2 b (by rw [hs]; exact List.mem_cons_of_mem _ hb')
+    · split
+      · refine ⟨⟨h1, hd, ?_, h3, h4⟩, rfl⟩
+        intro b hb'
+        rcases List.mem_cons.mp hb' with rfl | hb'
+        · exact hr
+        · exact h2 b (by rw [hs]; exact List.mem_cons_of_mem _ hb')
+      · refine ⟨⟨h1, hd, ?_, h3, h4⟩, rfl⟩
+        intro b hb'
+        rcases List.mem_cons.mp hb' with rfl | hb'
+        · exact hd _
+        rcases List.mem_cons.mp hb' with rfl | hb'
+        · exact hr
+        · exact h2 b (by rw [hs]; exact List.mem_cons_of_mem _ hb')
 
 theorem stepLoop_bodies {s : St} (h : BodiesInv s) : BodiesInv (stepLoop s) ∧ (stepLoop s).qreq = s.qreq := by
   have hr := runTop_bodies h
-  obtain ⟨h1, h2, h3, h4⟩ := h
+  obtain ⟨h1, hd, h2, h3, h4⟩ := h
   loop_cases
   all_goals (first
     | exact hr
-    | (refine ⟨⟨?_, ?_, ?_, ?_⟩, ?_⟩ <;> simp_all))
+    | (refine ⟨⟨?_, ?_, ?_, ?_, ?_⟩, ?_⟩ <;> simp_all))
 
 theorem stepOther_bodies {s : St} (k : Nat) (h : BodiesInv s) : BodiesInv (stepOther s k) := by
-  have e : (stepOther s k).tbl = s.tbl ∧ (stepOther s k).stack = s.stack ∧ (stepOther s k).lpc = s.lpc ∧
-      (stepOther s k).selfQuit = s.selfQuit := by
+  have e : (stepOther s k).tbl = s.tbl ∧ (stepOther s k).dtbl = s.dtbl ∧ (stepOther s k).stack = s.stack ∧
+      (stepOther s k).lpc = s.lpc ∧ (stepOther s k).selfQuit = s.selfQuit := by
     other_cases
-    all_goals (refine ⟨?_, ?_, ?_, ?_⟩ <;> simp [setThr, touch] <;> (repeat' split) <;> rfl)
-  obtain ⟨e1, e2, e3, e4⟩ := e
-  exact ⟨by rw [e1]; exact h.tbl, by rw [e2]; exact h.stack, by rw [e3]; exact h.lpc, by rw [e4]; exact h.selfq⟩
+    all_goals (refine ⟨?_, ?_, ?_, ?_, ?_⟩ <;> simp [setThr, touch] <;> (repeat' split) <;> rfl)
+  obtain ⟨e1, ed, e2, e3, e4⟩ := e
+  exact ⟨by rw [e1]; exact h.tbl, by rw [ed]; exact h.dtbl, by rw [e2]; exact h.stack, by rw [e3]; exact h.lpc,
+    by rw [e4]; exact h.selfq⟩
 
 /-- where the owner thread (T0) stands in `startLoop(); submissions…; [~EventLoopThread()]`, and what that means for
 the shared state; `tail` is `[]` or `[destroy]` -/
@@ -131,9 +148,9 @@ theorem stepLoop_owner {tail : List Sub} {s : St} (h : OwnerInv tail s) : OwnerI
     | die hp _ _ _ _ _ _ =>
       have := hq.goneReq (Or.inr (Or.inr (by simp [hp, exited]))); simp [hf] at this
   have keepUnborn : s.phase = .unborn → (stepLoop s).phase = .unborn := by
-    intro hp; unfold stepLoop stepLoopFD; simp [hp]
+    intro hp; unfold stepLoop stepLoopFD stepLoopG; simp [hp]
   have keepDead : s.phase = .dead → (stepLoop s).phase = .dead := by
-    intro hp; unfold stepLoop stepLoopFD; simp [hp]
+    intro hp; unfold stepLoop stepLoopFD stepLoopG; simp [hp]
   unfold OwnerOk at hw ⊢
   rw [t1, hqr]
   cases hpc : (s.thr 0).pc <;> simp only [hpc] at hw ⊢
@@ -214,6 +231,8 @@ theorem stepOwner_ok {tail : List Sub} (htail : tail = [] ∨ tail = [.destroy])
               exact ⟨b', hbu', hr⟩
           · simp [OwnerOk, stepOther, hpc, stepIdle, hpr, setThr, hl, hqf]
             exact Or.inr ⟨b', hbu', hr⟩
+          · simp [OwnerOk, stepOther, hpc, stepIdle, hpr, silent, setThr, hl, hqf]
+            exact Or.inr ⟨b', hbu', hr⟩
         · simp [OwnerOk, stepOther, hpc, stepIdle, hpr, he, setThr, hl, hqf, htl]
     · -- joined
       simp [OwnerOk, stepOther, hpc, stepIdle, hprog]
@@ -288,10 +307,11 @@ theorem step_owner {tail : List Sub} (htail : tail = [] ∨ tail = [.destroy]) {
       · rw [stepOther_idle_nil (h.others k hk0 hk1)]
         exact ownerOk_congr rfl rfl rfl rfl h.owner
 
-theorem init_owner (wl : Bool) (tbl : TaskId → List Sub) (pre body tail : List Sub)
-    (htbl : ∀ x, userOnly (tbl x) = true) (hpre : userOnly pre = true) (hbody : userOnly body = true) :
-    OwnerInv tail (init true wl tbl pre (fun k => if k = 0 then .startLoop :: (body ++ tail) else [])) := by
-  refine ⟨rfl, ⟨htbl, ?_, by simp [init], rfl⟩, init_quit _ _ _ _ _, init_eltInv _ _ _ _ _, ?_, ?_⟩
+theorem init_owner (wl : Bool) (tbl dtbl : TaskId → List Sub) (pre body tail : List Sub)
+    (htbl : ∀ x, userOnly (tbl x) = true) (hdtbl : ∀ x, userOnly (dtbl x) = true) (hpre : userOnly pre = true)
+    (hbody : userOnly body = true) :
+    OwnerInv tail (init true wl tbl dtbl pre (fun k => if k = 0 then .startLoop :: (body ++ tail) else [])) := by
+  refine ⟨rfl, ⟨htbl, hdtbl, ?_, by simp [init], rfl⟩, init_quit _ _ _ _ _ _, init_eltInv _ _ _ _ _ _, ?_, ?_⟩
   · intro b hb
     simp only [init] at hb
     split at hb
